@@ -37,7 +37,7 @@ def by_name(info):
                 for i, n in enumerate(info.model_name))
 
 
-def compare(a, b, names, mode, conds, what, sig, sc_shift=0.):
+def compare(a, b, names, mode, conds, what, sig, sc_shift=0., conds_T=None):
     ra, rb = by_name(a), by_name(b)
     if sorted(ra) != sorted(names) or sorted(rb) != sorted(names):
         fail('%s: model sets differ: %r vs %r' % (what, sorted(ra), sorted(rb)), sig)
@@ -46,7 +46,8 @@ def compare(a, b, names, mode, conds, what, sig, sc_shift=0.):
         sc2 = sc2 - sc_shift
         if c1 != c1 and c2 != c2:
             continue
-        scale = max(abs(c1), abs(c2), 1.)
+        # rounding in chi^2 scales with the size of the terms that cancel, T = sum w r^2, not with chi^2 itself
+        scale = max(abs(c1), abs(c2), 1., conds_T.get('T', 0.) if isinstance(conds_T, dict) else 0.)
         if not abs(c1 - c2) <= (1e-9 + 100. * (2.3e-16 * conds[m]) ** 2) * scale:
             fail('%s: chi2 of model %s: %r vs %r' % (what, name, c1, c2), sig)
         if mode == '3d' and abs(sc1 - sc2) > 1e-9:
@@ -58,14 +59,21 @@ def compare(a, b, names, mode, conds, what, sig, sc_shift=0.):
             fail('%s: (av, sc) of model %s: (%r, %r) vs (%r, %r)' % (what, name, av1, sc1, av2, sc2), sig)
 
 
+LAST_T = {}
+
+
 def conds_for(case, src, av_range, mode):
+    LAST_T.clear()
     names = case['grid']['names']
     if mode == '3d':
         return [1.] * len(names)
     k = of.extinction_pattern(case['law']['wav'], case['law']['chi'], [f['wav'] for f in case['filters']])
     bands = of.transform_source(src['flags'], src['flux'], src['err'])
-    ref = of.Ref2D(bands, case['grid']['logflux'][0], k, av_range[0], av_range[1])
-    c = ref.cond if not ref.singular else float('inf')
+    c = 0.
+    for m in range(len(names)):
+        ref = of.Ref2D(bands, case['grid']['logflux'][m], k, av_range[0], av_range[1])
+        c = max(c, ref.cond if not ref.singular else float('inf'))
+        LAST_T['T'] = max(LAST_T.get('T', 0.), float(ref.T), float(ref.S_star) if ref.S_star is not None else 0.)
     return [c] * len(names)
 
 
@@ -74,6 +82,8 @@ def permuted_case(case, fperm, mperm, mode):
     c = dict(case)
     c['filters'] = [case['filters'][j] for j in fperm]
     c['theta'] = [case['theta'][j] for j in fperm]
+    if case.get('ap_count_by_filter'):
+        c['ap_count_by_filter'] = [case['ap_count_by_filter'][j] for j in fperm]
     g = dict(case['grid'])
     g['names'] = [case['grid']['names'][m] for m in mperm]
     if mode == '2d':
@@ -142,9 +152,9 @@ def run_permute(case, ctx):
                 labels.add('singular_source_skipped')
                 continue
             compare(base[i], pf[i], names, mode, conds,
-                    'source %d, filters permuted by %r' % (i, fperm), 'c11:filter_order_matters')
+                    'source %d, filters permuted by %r' % (i, fperm), 'c11:filter_order_matters', conds_T=dict(LAST_T))
             compare(base[i], pm[i], names, mode, conds,
-                    'source %d, models permuted by %r' % (i, mperm), 'c11:model_order_matters')
+                    'source %d, models permuted by %r' % (i, mperm), 'c11:model_order_matters', conds_T=dict(LAST_T))
     if not fid:
         labels.add('filters_permuted')
     if not mid:
@@ -184,11 +194,14 @@ def run_rescale(case, ctx):
             scaled = dict(src)
             scaled['flux'] = [v * cfac for v in src['flux']]
             scaled['err'] = [v * cfac for v in src['err']]
+            t0 = dict(LAST_T)
+            conds_for(case, scaled, av_range, '2d')
+            LAST_T['T'] = max(LAST_T.get('T', 0.), t0.get('T', 0.))
             with must_succeed('Fitter.fit'), quiet():
                 a = fitter.fit(gen.source_object(src))
                 b = fitter.fit(gen.source_object(scaled))
             compare(a, b, names, '2d', conds, 'source %d, fluxes and errors x %r' % (i, cfac),
-                    'c11:brightness_scaling', sc_shift=-0.5 * math.log10(cfac))
+                    'c11:brightness_scaling', sc_shift=-0.5 * math.log10(cfac), conds_T=dict(LAST_T))
     return labels, cfac != 1.
 
 
